@@ -90,6 +90,52 @@ pub trait Prop: 'static {
     }
 }
 
+/// In-flight table shared with the guarding parent process (see `guard.rs`): slot k holds
+/// run index + 1 of the execution worker slot k is running, or 0. A plain file written with
+/// `write_at`: the parent reads it after this process has died or stopped making progress.
+pub struct StatusFile {
+    _file: std::fs::File,
+    base: *mut std::sync::atomic::AtomicU64,
+}
+unsafe impl Send for StatusFile {}
+unsafe impl Sync for StatusFile {}
+impl StatusFile {
+    /// Maps (creating it if need be) the table at `path` into memory, shared between processes:
+    /// updating a slot is one store, no system call.
+    pub fn open(path: &std::path::Path) -> Option<StatusFile> {
+        use std::os::unix::io::AsRawFd;
+        let file = std::fs::OpenOptions::new().read(true).write(true).create(true).open(path).ok()?;
+        file.set_len((STATUS_SLOTS * 8) as u64).ok()?;
+        // SAFETY: a fresh shared mapping of a file we own, of exactly the size we use
+        let p = unsafe { libc::mmap(std::ptr::null_mut(), STATUS_SLOTS * 8, libc::PROT_READ | libc::PROT_WRITE, libc::MAP_SHARED, file.as_raw_fd(), 0) };
+        if p == libc::MAP_FAILED {
+            return None;
+        }
+        Some(StatusFile { _file: file, base: p as *mut std::sync::atomic::AtomicU64 })
+    }
+    fn slot(&self, k: usize) -> &std::sync::atomic::AtomicU64 {
+        // SAFETY: k < STATUS_SLOTS, the mapping is page-aligned and lives as long as self
+        unsafe { &*self.base.add(k % STATUS_SLOTS) }
+    }
+    pub fn set(&self, slot: usize, v: u64) {
+        self.slot(slot).store(v, SeqCst);
+    }
+    pub fn get(&self, slot: usize) -> u64 {
+        self.slot(slot).load(SeqCst)
+    }
+}
+pub const STATUS_SLOTS: usize = 64;
+static STATUS: std::sync::OnceLock<Option<StatusFile>> = std::sync::OnceLock::new();
+/// Called once by `main` in child mode.
+pub fn set_status_file(path: Option<&std::path::Path>) {
+    let _ = STATUS.set(path.and_then(StatusFile::open));
+}
+fn status_set(slot: usize, v: u64) {
+    if let Some(Some(f)) = STATUS.get() {
+        f.set(slot, v);
+    }
+}
+
 thread_local! {
     static CUR_SCN: RefCell<Option<Rc<dyn Any>>> = const { RefCell::new(None) };
     static TRACE: Cell<bool> = const { Cell::new(false) };
@@ -299,7 +345,7 @@ const DISTINCT_CAP_MERGED: usize = 70_000_000;
 /// Runs executions on the calling OS thread until the run indices are used
 /// up (returns `true`) or an execution ends in a panic (returns `false`: the
 /// thread may carry a suspended unwind, the supervisor continues on a fresh one).
-fn worker<P: Prop>(shared: Arc<Shared<P::Scn>>, tier: Tier, verif_seed: u64, n: u64, known: Arc<Known>) -> (WorkerStats, bool) {
+fn worker<P: Prop>(slot: usize, shared: Arc<Shared<P::Scn>>, tier: Tier, verif_seed: u64, n: u64, known: Arc<Known>) -> (WorkerStats, bool) {
     let stats = Rc::new(RefCell::new(WorkerStats::default()));
     // run in flight: (idx, seed, scn, plan)
     type InFlight<S> = Option<(u64, u64, S, ExecPlan)>;
@@ -375,6 +421,7 @@ fn worker<P: Prop>(shared: Arc<Shared<P::Scn>>, tier: Tier, verif_seed: u64, n: 
         let (finalize, inflight, shared) = (finalize.clone(), inflight.clone(), shared.clone());
         move || -> Option<ExecPlan> {
             finalize(None);
+            status_set(slot, 0);
             if shared.stop.load(SeqCst) {
                 return None;
             }
@@ -382,6 +429,7 @@ fn worker<P: Prop>(shared: Arc<Shared<P::Scn>>, tier: Tier, verif_seed: u64, n: 
             if idx >= n || idx > shared.stop_at.load(SeqCst) {
                 return None;
             }
+            status_set(slot, idx + 1);
             let seed = util::run_seed(verif_seed, P::ID, 0, idx);
             let mut r = SplitMix(seed);
             let scn = P::gen(&mut r, tier, idx);
@@ -412,14 +460,14 @@ fn worker<P: Prop>(shared: Arc<Shared<P::Scn>>, tier: Tier, verif_seed: u64, n: 
 }
 
 /// One worker slot: runs `worker` on fresh OS threads until the indices are used up.
-fn supervisor<P: Prop>(shared: Arc<Shared<P::Scn>>, tier: Tier, verif_seed: u64, n: u64, known: Arc<Known>) -> WorkerStats {
+fn supervisor<P: Prop>(slot: usize, shared: Arc<Shared<P::Scn>>, tier: Tier, verif_seed: u64, n: u64, known: Arc<Known>) -> WorkerStats {
     let mut total = WorkerStats::default();
     loop {
         let (shared2, known2) = (shared.clone(), known.clone());
         let (st, done) = std::thread::Builder::new()
             .stack_size(4 << 20)
             .spawn(move || {
-                let (st, done) = worker::<P>(shared2, tier, verif_seed, n, known2);
+                let (st, done) = worker::<P>(slot, shared2, tier, verif_seed, n, known2);
                 (SendStats(st), done)
             })
             .expect("spawn")
@@ -496,6 +544,7 @@ pub fn check<P: Prop>(o: &CheckOpts) -> i32 {
             let mut r = SplitMix(seed);
             let scn = P::gen(&mut r, o.tier, idx);
             let plan = P::plan(&mut r, &scn);
+            status_set(STATUS_SLOTS - 1, idx + 1);
             let a = execute_once::<P>(&scn, plan.clone(), false);
             let b = execute_once::<P>(&scn, plan.clone(), false);
             if a.rec.hash() != b.rec.hash()
@@ -526,6 +575,7 @@ pub fn check<P: Prop>(o: &CheckOpts) -> i32 {
         }
     }
 
+    status_set(STATUS_SLOTS - 1, 0);
     let shared = Arc::new(Shared::<P::Scn> {
         next: AtomicU64::new(0),
         stop: AtomicBool::new(false),
@@ -535,12 +585,12 @@ pub fn check<P: Prop>(o: &CheckOpts) -> i32 {
         samples: Mutex::new(vec![]),
     });
     let mut handles = vec![];
-    for _ in 0..o.workers.max(1) {
+    for slot in 0..o.workers.max(1) {
         let (shared, known, tier, vs) = (shared.clone(), known.clone(), o.tier, o.verif_seed);
         handles.push(
             std::thread::Builder::new()
                 .stack_size(8 << 20)
-                .spawn(move || SendStats(supervisor::<P>(shared, tier, vs, n, known)))
+                .spawn(move || SendStats(supervisor::<P>(slot % STATUS_SLOTS, shared, tier, vs, n, known)))
                 .expect("spawn"),
         );
     }
@@ -561,7 +611,11 @@ pub fn check<P: Prop>(o: &CheckOpts) -> i32 {
     let mut violation_lines = vec![];
     let mut replay_samples = vec![];
     for f in &failures {
+        // (minimisation re-executes variants of the failing run: should one of them kill the
+        // process, the guard attributes it to this run)
+        status_set(STATUS_SLOTS - 2, f.idx + 1);
         let (path, min) = minimise_and_persist::<P>(f, o);
+        status_set(STATUS_SLOTS - 2, 0);
         // a replay in a fresh process must reproduce the violation exactly
         let ok = verify_replay_in_fresh_process(&path, P::ID);
         if !ok {
@@ -916,4 +970,52 @@ pub fn digest<P: Prop>(tier: Tier, verif_seed: u64, from: u64, n: u64) {
             a.violation.map(|v| v.class).unwrap_or_else(|| "-".into())
         );
     }
+}
+
+/// `simcheck scenario <id> --idx i`: the scenario and plan of run i as JSON (no code under test runs).
+pub fn scenario_json<P: Prop>(tier: Tier, verif_seed: u64, idx: u64) -> Value {
+    let seed = util::run_seed(verif_seed, P::ID, 0, idx);
+    let mut r = SplitMix(seed);
+    let scn = P::gen(&mut r, tier, idx);
+    let plan = P::plan(&mut r, &scn);
+    json!({
+        "property": P::ID, "engine": P::engine(), "verif_seed": verif_seed, "tier": tier.name(), "run": idx, "run_seed": seed,
+        "scenario": serde_json::to_value(&scn).unwrap_or(Value::Null),
+        "plan": plan_to_json(&plan),
+        "strategy": strategy_name(&plan),
+    })
+}
+/// `simcheck run-one <id> --idx i`: executes exactly run i in this process (used by the guard to
+/// find the run that kills or hangs the process). Exit code 0 whatever the verdict.
+pub fn run_one<P: Prop>(tier: Tier, verif_seed: u64, idx: u64) -> i32 {
+    P::prepare();
+    let seed = util::run_seed(verif_seed, P::ID, 0, idx);
+    let mut r = SplitMix(seed);
+    let scn = P::gen(&mut r, tier, idx);
+    let plan = P::plan(&mut r, &scn);
+    let out = execute_once::<P>(&scn, plan, false);
+    println!("run {idx}: {}", out.violation.map(|v| v.class).unwrap_or_else(|| "-".into()));
+    0
+}
+/// `simcheck replay-child <file>`: re-runs the scenario of a process-level finding (seeded
+/// strategy of the original plan: the recorded schedule of a process that died is not available).
+pub fn replay_process_level<P: Prop>(doc: &Value) -> i32 {
+    P::prepare();
+    let scn: P::Scn = match serde_json::from_value(doc.get("scenario").cloned().unwrap_or(Value::Null)) {
+        Ok(s) => s,
+        Err(e) => {
+            println!("HARNESS-ERROR cannot read scenario: {e}");
+            return 2;
+        }
+    };
+    let idx = doc.get("run").and_then(|v| v.as_u64()).unwrap_or(0);
+    let seed = doc.get("run_seed").and_then(|v| v.as_u64()).unwrap_or(0);
+    // the plan is a function of the run seed and the scenario, as in the original run
+    let mut r = SplitMix(seed);
+    let tier = if doc.get("tier").and_then(|t| t.as_str()) == Some("thorough") { Tier::Thorough } else { Tier::Quick };
+    let _ = P::gen(&mut r, tier, idx);
+    let plan = P::plan(&mut r, &scn);
+    let out = execute_once::<P>(&scn, plan, false);
+    println!("replay-child finished: {}", out.violation.map(|v| v.class).unwrap_or_else(|| "-".into()));
+    0
 }
